@@ -150,6 +150,11 @@ func mergedRefsHarness(k int, alphabet string, kinds bool, suppress bool, needle
 	want := specOverlayRefs(model)
 	it, err := m.SeekRef(needle)
 	VerifAssert(err == nil, "seek-err")
+	// a second iterator of the same view, alive at the same time (a lookup in the middle of a walk), must not disturb the first
+	if it2, err2 := m.SeekRef(""); err2 == nil {
+		var other RefRecord
+		it2.NextRef(&other)
+	}
 	last := ""
 	first := true
 	for i := range want {
@@ -327,7 +332,11 @@ var _ uint64 = math.MaxUint64
 // covers: refs, logs
 func Harness_C03_real() {
 	cfg := Config{BlockSize: 96}
-	nOld := []int{7, 14}[VerifChoose(2)]
+	k := VerifIntRange(1, 1+VerifTier())
+	nOld := 7
+	if k == 1 {
+		nOld = []int{7, 14}[VerifChoose(2)] // three tables only over the unindexed base (the thorough tier stays within minutes)
+	}
 	var refTabs [][]RefRecord
 	var logTabs [][]LogRecord
 	var readers []*Reader
@@ -340,7 +349,6 @@ func Harness_C03_real() {
 	}
 	refTabs, logTabs = append(refTabs, ts.refs), append(logTabs, ts.logs)
 	readers = append(readers, writeTabSpec(cfg, ts, 1, 1, "t0"))
-	k := VerifIntRange(1, 1+VerifTier())
 	menu := []string{shapeName(0), shapeName(3), shapeName(4), shapeName(2*nOld - 2), shapeName(2*nOld + 1)}
 	for t := 1; t <= k; t++ {
 		var n tabSpec
@@ -351,10 +359,12 @@ func Harness_C03_real() {
 			r.Value = hashWith(20, byte(0x80+t), 7)
 		}
 		n.refs = append(n.refs, r)
-		if b := []int{len(menu), a + 1, len(menu) - 1}[VerifChoose(3)]; b > a && b < len(menu) {
+		if t == 2 {
+			// the third table: one ref only
+		} else if b := []int{len(menu), a + 1, len(menu) - 1}[VerifChoose(3)]; b > a && b < len(menu) {
 			n.refs = append(n.refs, RefRecord{RefName: menu[b], UpdateIndex: ui, Value: hashWith(20, byte(0x90+t), 3)})
 		}
-		if VerifChoose(2) == 1 {
+		if t < 2 && VerifChoose(2) == 1 {
 			n.logs = append(n.logs, LogRecord{RefName: menu[a], UpdateIndex: ui, Time: uint64(10 + t), New: hashWith(20, byte(t), 4), Old: hashWith(20, 0, 0), Message: "m\n"})
 		}
 		refTabs, logTabs = append(refTabs, n.refs), append(logTabs, n.logs)
